@@ -140,7 +140,13 @@ def fill_contract(rep):
             cb = tr[0].callback
             # the values the visitor consumes: whichever variable of its closure holds a copy of the caller's list (the name is not part of the contract)
             st['cp'] = None
-            e_ = getattr(cb, 'env', None)
+            # ... or an attribute of the callable object the visitor is a method of
+            owner = cb if isinstance(cb, SymObj) else getattr(cb, 'self_obj', None)
+            if isinstance(owner, SymObj):
+                for v_ in (owner.fields or {}).values():
+                    if isinstance(v_, SymSeq) and getattr(v_, 'copy_of', (None,))[0] is params:
+                        st['cp'] = v_
+            e_ = getattr(cb, 'env', None) if st['cp'] is None else None
             while e_ is not None and st['cp'] is None:
                 for v_ in e_.vars.values():
                     if isinstance(v_, SymSeq) and getattr(v_, 'copy_of', (None,))[0] is params:
